@@ -320,13 +320,24 @@ def snapshot(o):
     return list(fields(o).items())
 
 
+def _same_value(v1, v2):
+    if v1 is v2:
+        return True
+    if (v1 is None) != (v2 is None):
+        return False
+    if isinstance(v1, tuple) != isinstance(v2, tuple) or isinstance(v1, str) != isinstance(v2, str):
+        return False
+    return bool(v1 == v2)
+
+
 def unchanged(o, snap):
-    """Same field names in the same order, every field still the identical object."""
+    """Same field names in the same order; every field is still the identical object or (identity of small concrete
+    strings/ints is not meaningful) an equal value of the same kind."""
     now = list(fields(o).items())
     if len(now) != len(snap):
         return False
     for (k1, v1), (k2, v2) in zip(now, snap):
-        if k1 != k2 or v1 is not v2:
+        if k1 != k2 or not _same_value(v1, v2):
             return False
     return True
 
